@@ -529,11 +529,19 @@ inline rc::Gen<Workload> genWorkload(int tier)
                             break;
                         case 3:
                             r.msgType = 1, r.dataType = 0, r.kind = 2;
+                            if (*range<int>(0, 3) == 0)
+                                r.trailer = *bytesOfLen(*range<size_t>(1, 6));
                             break;
                         default:
                             r.msgType = 2, r.dataType = 0, r.kind = 3, r.entries = *range<uint16_t>(0, 9);
+                            // a third of the bus status messages end with 1..11 bytes that are not a complete 12-byte entry
+                            if (*range<int>(0, 2) == 0)
+                                r.trailer = *bytesOfLen(*range<size_t>(1, 11));
                             break;
                     }
+                    // one frame in six is followed by bytes beyond the TECMP payload (padding of a short Ethernet frame)
+                    if (*range<int>(0, 5) == 0)
+                        r.extra = *bytesOfLen(*range<size_t>(1, 10));
                     w.tecmp.push_back(r);
                 }
                 break;
